@@ -4168,6 +4168,20 @@ fn eval_built_in_call(
             }
         }
         BuiltInFunctionKind::ReflectCheckSnippet => {
+            // Checking a snippet loads the files that it imports.
+            if env.enforce_sandbox {
+                let mut saved_values = vec![];
+                for value in arg_values.iter().rev() {
+                    saved_values.push(value.clone());
+                }
+                saved_values.push(receiver_value.clone());
+
+                return Err((
+                    RestoreValues(saved_values),
+                    EvalError::ForbiddenInSandbox(receiver_pos.clone()),
+                ));
+            }
+
             check_arity(
                 &SymbolName {
                     text: format!("{kind}"),
